@@ -221,7 +221,7 @@ def main(run, shard=(0, 1)) -> None:
         'escape_text': (tk, 'escape_text'),
     })
     probe.start()
-    n = 60000 if run.tier == 'thorough' else 2500
+    n = 500000 if run.tier == "thorough" else 2500
     for i in range(n):
         if not mine(i, shard):
             continue
